@@ -25,6 +25,8 @@ Why(rec) ==
          ELSE IF rec.values = <<>> THEN "harness: no value"
          ELSE IF Varies(rec.reg, rec.values[1].tree) /\ Cardinality({rec.values[i].tree : i \in 1..Len(rec.values)}) < 2
               THEN "repeated calls always return the same value"
+         ELSE IF FrozenComponents(rec.reg, rec.values) # {}
+              THEN "a component never varies over repeated calls: " \o rec.values[1].tree.fields[CHOOSE i \in FrozenComponents(rec.reg, rec.values) : TRUE].go
          ELSE ""
 
 TraceInit == l = 1 /\ TLCSet(1, <<>>)
